@@ -5,6 +5,8 @@ from ..exact import fzero, finf, fninf, fnan, raw_json as J, raw_unjson as U
 
 ID = "C03"
 LEVEL = "exploration"
+CASE_TIMEOUT = 30.0          # each case is a micro/milli-second integer kernel
+HANG_IS_VIOLATION = True
 RULE = ("Cases = (base raw bit pattern incl. negative bases/specials/1+-2^-j, integer exponent n from {0,+-1,+-2,+-3,"
         " small, bc*n straddling 1000 (exact-path switch), 1e3..1e6, 2^k, 2^k+-1, up to 1e18 for bases near 1}, "
         "precision, rounding mode) through libmp.mpf_pow_int (all five modes), mpf**int and mp.power (context "
